@@ -49,3 +49,22 @@ End C16.
 Print Assumptions C16_consulted_once.
 Print Assumptions C16_simulation.
 Print Assumptions C16_at_most_once.
+
+(* ---- the statement evaluated on REAL callback logs (Spec/FilterSpec.filter_log_ok) follows from the model: for every
+   filter and message history, the interleaved filter/Update trace of the L0 run (counting model of the harness, the
+   generated dispatch table) satisfies it, and that trace is nothing but the model's two logs *)
+From BT Require Import Model.FilterPolicy Spec.FilterSpec Proof.FilterSpecSound.
+Theorem C16_spec_sound : forall dm f view ms s, el_exit s = None ->
+  filter_log_ok (map msg_code ms) (el_model s) (trace dm f view s ms) = true.
+Proof. exact filter_spec_sound. Qed.
+Print Assumptions C16_spec_sound.
+Theorem C16_trace_is_the_logs : forall dm f view ms s,
+  map pf (el_filter_log (el_run Dispatch.dispatch dm (Some f) count_upd view s ms)) = map pf (el_filter_log s) ++ tr_filters (trace dm f view s ms) /\
+  map pf (el_update_log (el_run Dispatch.dispatch dm (Some f) count_upd view s ms)) = map pf (el_update_log s) ++ tr_updates (trace dm f view s ms).
+Proof. exact trace_projects. Qed.
+Print Assumptions C16_trace_is_the_logs.
+Example C16_spec_nonvacuous :
+  let f := policy_filter [(1000%N, None); (1001%N, Some (RB KQuit))] in
+  trace [] f (fun _ => []) (el_init 0 r_init) [RUser 0; RUser 2; RB KBatch; RUser 1; RUser 5] =
+  [FFilter 0 1000 None; FFilter 0 1002 (Some 1002%N); FUpdate 0 1002; FFilter 1 16 (Some 16%N); FFilter 1 1001 (Some 0%N)].
+Proof. vm_compute. reflexivity. Qed.
